@@ -62,8 +62,9 @@ def run_case(case):
     skipna = case["skipna"]
     cats = case["cats"]
     variant = case.get("variant", "dask")
-    idt = np.int64 if variant == "int" else np.float64
-    ddt = np.int64 if variant == "int" and not any(v != v for v in data) else np.float64
+    idt = np.dtype(case.get("dtype", "float64"))
+    ddt = np.dtype(case.get("data_dtype", "float64"))
+    fdata2 = [fh(v) for v in case["fdata2"]] if "fdata2" in case else [-v for v in fdata]
     outs = []
     for ch in case["chunkings"]:
         try:
@@ -91,7 +92,7 @@ def run_case(case):
             first = ch is case["chunkings"][0]
             if first:
                 # a second, different data array with the same chunking, evaluated in the SAME dask computation
-                fd2 = chunked([-v for v in fdata], shape, ch["fdata"], idt)
+                fd2 = chunked(fdata2, shape, ch["fdata"], idt)
                 joint = [r.get_min(fd2), r.get_max(fd2), r.get_abs_max(fd2)]
             else:
                 joint = []
